@@ -321,7 +321,12 @@ def gen_clock(r, opts, finite=None):
         return float("inf"), [r.choice([0.0, 0.001, 1.0])]
     total = opts["burnin"] + opts["num_iters"]
     expire_at = r.randint(0, total)  # iteration (burn-in included) during which the limit is crossed
-    kind = r.choice(["jump", "steady", "stall", "back"])
+    kind = r.choice(["jump", "steady", "stall", "back", "frozen", "zero_limit"])
+    if kind == "frozen":
+        # the clock never advances and the limit is 0 seconds (the CLI accepts --max-time 0)
+        return 0.0, [0.0]
+    if kind == "zero_limit":
+        return 0.0, [r.choice([0.0, 0.25, 1.0])]
     deltas = []
     for it in range(total + 2):
         between = r.choice([0.0, 0.5, 3.0])  # time passing outside the timed section (not counted by Timer)
